@@ -154,7 +154,10 @@ econf_err getDoubleValueNum(econf_file key_file, size_t num, double *result) {
     return ECONF_KEY_HAS_NULL_VALUE;
   errno = 0;
   *result = strtod(key_file.file_entry[num].value, &endptr);
-  if (endptr == key_file.file_entry[num].value || errno == ERANGE || (errno != 0 && *result == 0))
+  /* ERANGE is also set for subnormal results, which are valid values.
+     Overflow only is an error. */
+  if (endptr == key_file.file_entry[num].value ||
+      (errno == ERANGE && (*result == HUGE_VAL || *result == -HUGE_VAL)))
     return ECONF_VALUE_CONVERSION_ERROR;
   return ECONF_SUCCESS;
 }
